@@ -71,6 +71,8 @@ class RelativeJumpOpcode(OpcodeWithoutOperand):
         from a816.parse.nodes import ExpressionNode
 
         if isinstance(value_node, ExpressionNode):
+            if resolver.reloc_address.physical is None:
+                raise RuntimeError("Jumping from ram is not supported.")
             pc = resolver.pc
             physical_destination = resolver.get_bus().get_address(value).physical
 
